@@ -15,7 +15,7 @@
     Both end the sender's task; they differ in what the entrypoint still runs (C17/C18) and in
     how a held server is given back (see [eff]).
 
-    Source: /repo/src at the commit the check runs against (file:line are those of fd4aac1). *)
+    Source: /repo/src at the commit the check runs against (file:line are those of 2ecc068). *)
 From Coq Require Import ZArith NArith List Bool Lia.
 Import ListNotations.
 Local Open Scope Z_scope.
@@ -569,6 +569,7 @@ Definition txn_msg (o : opts) (copy ext intx : bool) (c : cstate) (pre : list ef
         match z with
         | ZI => SDone (NCont (Idle c')) (pre ++ [FxToServer; FxRelease]) [z] obs' rest
         | ZClosed => SDone (NEnd HErr) (pre ++ [FxToServer; FxReply RErrOnly; FxDropHeld]) [z] obs' rest
+        | ZG => SDone (NCont (InCopy intx false c')) (pre ++ [FxToServer]) [z] obs' rest   (* the next COPY of the same query (628c2ec) *)
         | _ => SDone (NCont (InTxn true c')) (pre ++ [FxToServer]) [z] obs' rest
         end
       end
@@ -723,26 +724,35 @@ Definition step (o : opts) (st : pstate) (s : bytes) (obs : list zrep) : sout :=
     out inside a message.  [FStuck] = the fuel ran out (c11_total: never happens). *)
 Inductive final := FCont (st : pstate) | FEnd (h : how) | FNeed (st : pstate) (pending : bytes)
                  | FBlocked (st : pstate) | FStuck.
-Record rres := mkR { r_fin : final; r_effs : list eff; r_z : list zrep }.
+Record rres := mkR { r_fin : final; r_effs : list eff; r_z : list zrep; r_obs : list zrep (* observed terminators not consumed *) }.
 
 Fixpoint run_fuel (fuel : nat) (o : opts) (st : pstate) (s : bytes) (obs : list zrep) (effs : list eff) (zp : list zrep) : rres :=
   match fuel with
-  | O => mkR FStuck effs zp
+  | O => mkR FStuck effs zp obs
   | S f =>
     match s with
-    | [] => mkR (FCont st) effs zp
+    | [] => mkR (FCont st) effs zp obs
     | _ =>
       match step o st s obs with
-      | SNeed => mkR (FNeed st s) effs zp
+      | SNeed => mkR (FNeed st s) effs zp obs
       | SDone (NCont st') e z obs' rest => run_fuel f o st' rest obs' (effs ++ e) (zp ++ z)
-      | SDone (NEnd h) e z _ _ => mkR (FEnd h) (effs ++ e) (zp ++ z)
-      | SDone (NBlocked st') e z _ _ => mkR (FBlocked st') (effs ++ e) (zp ++ z)
+      | SDone (NEnd h) e z obs' _ => mkR (FEnd h) (effs ++ e) (zp ++ z) obs'
+      | SDone (NBlocked st') e z obs' _ => mkR (FBlocked st') (effs ++ e) (zp ++ z) obs'
       end
     end
   end.
 
 Definition handle_bytes (o : opts) (st : pstate) (s : bytes) (obs : list zrep) : rres :=
   run_fuel (S (length s)) o st s obs [] [].
+
+(** Processing is independent of how the byte stream is cut into TCP segments: running on
+    [a] and later on [b] is running on [a ++ b] (c11_segmentation). *)
+Definition resume (o : opts) (r : rres) (b : bytes) : rres :=
+  match r_fin r with
+  | FCont st => run_fuel (S (length b)) o st b (r_obs r) (r_effs r) (r_z r)
+  | FNeed st p => run_fuel (S (length (p ++ b))) o st (p ++ b) (r_obs r) (r_effs r) (r_z r)
+  | _ => r
+  end.
 
 (** The client closes its socket after the bytes (EOF at a message boundary or inside one). *)
 Definition on_eof (st : pstate) : how * list eff :=
